@@ -43,6 +43,41 @@ def check(P: Project, R: Report) -> None:
              (f"`{ast.unparse(in_loop[0])[:50]}` sits in a loop: the same line (or pieces of it) can be written more than once — a write that was cut short by a timeout has already queued its bytes, so offering the line again delivers it twice; and every awaited write lets another task's line land in between" if in_loop else f"write counts per path {sorted(counts_)}"),
              sample=f"R1 {g_.qual}: one stdin write per call")
 
+    # ------------------------------------------------------------------ R6: nothing is written past lines still held back
+    R.rule("R6", "in the order sent: a writer that gathers lines in an accumulator and writes it later never puts another line on the pipe while the accumulator may hold unwritten ones (it is written out, or found empty, first)")
+    from ..order import writes_past_accumulator
+
+    wfn = wr.node
+    w_writes = [c_ for c_ in walk_local(wfn) if isinstance(c_, ast.Call) and _stdio.is_stdin_write(c_, wfn)]
+    grown = {x.target.id for x in walk_local(wfn) if isinstance(x, ast.AugAssign) and isinstance(x.op, ast.Add) and isinstance(x.target, ast.Name)} \
+        | {x.func.value.id for x in walk_local(wfn) if isinstance(x, ast.Call) and isinstance(x.func, ast.Attribute) and x.func.attr in ("append", "extend") and isinstance(x.func.value, ast.Name)}
+    lvw = local_values(wfn)
+
+    def _mentions(e, names, depth=0) -> bool:
+        for n_ in ast.walk(e):
+            if isinstance(n_, ast.Name):
+                if n_.id in names:
+                    return True
+                if depth < 3 and n_.id not in ("self",):
+                    if any(v_ is not None and _mentions(v_, names, depth + 1) for v_ in lvw.get(n_.id, [])):
+                        return True
+        return False
+
+    accs = {a_ for a_ in grown if any(c_.args and _mentions(c_.args[0], {a_}) for c_ in w_writes)}
+    if accs:
+        past = writes_past_accumulator(
+            wfn, accs,
+            is_hold=lambda c_: isinstance(c_.func, ast.Attribute) and c_.func.attr in ("append", "extend") and isinstance(c_.func.value, ast.Name) and c_.func.value.id in accs,
+            is_flush=lambda c_: isinstance(c_.func, ast.Attribute) and c_.func.attr == "clear" and isinstance(c_.func.value, ast.Name) and c_.func.value.id in accs,
+            is_direct=lambda c_: c_ in w_writes and not (c_.args and _mentions(c_.args[0], accs)))
+        for c_ in past:
+            R.ob("R6", "no line is written while earlier ones are still held back", False, f"{rel}:{c_.lineno}",
+                 f"`{ast.unparse(c_)[:60]}` puts a line on the pipe while `{sorted(accs)[0]}` may still hold lines taken off the stream before it: those reach the child after this one — a large message overtakes the small ones queued ahead of it")
+        if not past:
+            R.ob("R6", "the accumulator is written out (or empty) before anything else is written", True, f"{rel}:{wfn.lineno}", "", sample=f"R6 {wr.qual}: accumulator {sorted(accs)} never bypassed")
+    else:
+        R.ob("R6", "each line is written where it is made (no accumulator in the writer)", True, f"{rel}:{wfn.lineno}", "", sample=f"R6 {wr.qual}: {len(w_writes)} stdin write site(s), none fed from an accumulator")
+
     def ev(call, st: PState, an: PathAnalysis):
         nm = call_name(call)
         if isinstance(call.func, ast.Attribute) and call.func.attr in ("send", "send_all", "write"):
